@@ -115,17 +115,15 @@ theorem vfit_max (a0 c1 a2 : ℚ) :
         | (rw [show 2 * (-a0 - -c1) = -(2 * (a0 - c1)) by ring, neg_div_neg_eq]; ring)
         | (rw [show 2 * (-a2 - -c1) = -(2 * (a2 - c1)) by ring, neg_div_neg_eq]; ring)
 
-theorem quadratic_max (a0 c1 a2 : ℚ) :
-    quadratic true (.num a0) c1 (.num a2) = negOut (quadratic false (.num (-a0)) (-c1) (.num (-a2))) := by
+theorem quadratic_max (ff : Bool) (a0 c1 a2 : ℚ) :
+    quadratic ff true (.num a0) c1 (.num a2) = negOut (quadratic ff false (.num (-a0)) (-c1) (.num (-a2))) := by
   have e1 : (2 * ((-a0 - 2 * -c1 + -a2) / 2) = 0) ↔ (2 * ((a0 - 2 * c1 + a2) / 2) = 0) := by
     constructor <;> intro h <;> linarith
   have e2 : -((-a2 - -a0) / 2) / (2 * ((-a0 - 2 * -c1 + -a2) / 2)) = -((a2 - a0) / 2) / (2 * ((a0 - 2 * c1 + a2) / 2)) := by
     rw [show -((-a2 - -a0) / 2) = -(-((a2 - a0) / 2)) by ring,
         show (2 * ((-a0 - 2 * -c1 + -a2) / 2)) = -(2 * ((a0 - 2 * c1 + a2) / 2)) by ring, neg_div_neg_eq]
-  simp only [quadratic, sgn, Bool.false_eq_true, ↓reduceIte, e1, e2]
-  split_ifs <;> simp only [negOut, neg_neg, Res.ok.injEq, MOut.mk.injEq, and_true, true_and]
-  ring
-
+  cases ff <;> simp only [quadratic, sgn, Bool.false_eq_true, ↓reduceIte, e1, e2] <;>
+    split_ifs <;> simp only [negOut, neg_neg, Res.ok.injEq, MOut.mk.injEq, and_true, true_and] <;> ring
 
 theorem close_iff (a b tol : ℚ) : close a b tol = true ↔ |a - b| ≤ tol := by
   simp only [close, Bool.and_eq_true, decide_eq_true_eq, abs_le]
@@ -234,21 +232,35 @@ theorem parabDeriv_eq (c0 c1 c2 t : ℚ) :
     parabDeriv c0 c1 c2 t = 2 * ((c0 - 2 * c1 + c2) / 2) * t + (c2 - c0) / 2 := by
   unfold parabDeriv; ring
 
-theorem quadratic_min_spec (a0 c1 a2 tol : ℚ) (h0 : c1 ≤ a0) (h2 : c1 ≤ a2) (htol : 0 ≤ tol) :
-    (a0 = c1 ∧ a2 = c1 ∧ quadratic false (.num a0) c1 (.num a2) = .err .zeroDivision) ∨
-    (¬(a0 = c1 ∧ a2 = c1) ∧ ∃ r, quadratic false (.num a0) c1 (.num a2) = .ok r ∧ r.flag = 0 ∧ -(1/2) ≤ r.shift ∧ r.shift ≤ 1/2
+theorem quadratic_min_spec (ff : Bool) (a0 c1 a2 tol : ℚ) (h0 : c1 ≤ a0) (h2 : c1 ≤ a2) (htol : 0 ≤ tol) :
+    (ff = false ∧ a0 = c1 ∧ a2 = c1 ∧ quadratic ff false (.num a0) c1 (.num a2) = .err .zeroDivision) ∨
+    (¬(ff = false ∧ a0 = c1 ∧ a2 = c1) ∧ ∃ r, quadratic ff false (.num a0) c1 (.num a2) = .ok r ∧ r.flag = 0
+      ∧ -(1/2) ≤ r.shift ∧ r.shift ≤ 1/2
       ∧ r.cost ≤ c1 ∧ parabApexPos a0 c1 a2 r.shift tol = true ∧ close (parab a0 c1 a2 r.shift) r.cost tol = true) := by
   have hstop : ¬(c1 > a0 ∨ c1 > a2) := by push Not; exact ⟨h0, h2⟩
   by_cases hz : 2 * ((a0 - 2 * c1 + a2) / 2) = 0
-  · left
-    refine ⟨by linarith, by linarith, ?_⟩
-    simp only [quadratic, sgn, Bool.false_eq_true, ↓reduceIte, hstop, hz]
+  · have e0 : a0 = c1 := by linarith
+    have e2 : a2 = c1 := by linarith
+    cases ff
+    · left
+      refine ⟨rfl, e0, e2, ?_⟩
+      simp only [quadratic, sgn, Bool.false_eq_true, ↓reduceIte, hstop, hz]
+    · -- the repaired method: (0, cost[1], 0) on a flat triple
+      right
+      refine ⟨by simp, ⟨0, c1, 0⟩, ?_, rfl, by norm_num, by norm_num, le_refl _, ?_, ?_⟩
+      · simp only [quadratic, sgn, Bool.false_eq_true, ↓reduceIte, hstop, hz]
+      · simp only [parabApexPos, parabDeriv_eq]
+        apply close_of_eq _ _ _ htol
+        rw [e0, e2]; ring
+      · simp only [parab_eq]
+        apply close_of_eq _ _ _ htol
+        ring
   · right
     have hS : 0 < a0 - 2 * c1 + a2 := by
       rcases lt_or_eq_of_le (by linarith : 0 ≤ a0 - 2 * c1 + a2) with h | h
       · exact h
       · exfalso; apply hz; rw [← h]; norm_num
-    refine ⟨by rintro ⟨rfl, rfl⟩; linarith, ?_⟩
+    refine ⟨by rintro ⟨-, rfl, rfl⟩; linarith, ?_⟩
     set x := -((a2 - a0) / 2) / (2 * ((a0 - 2 * c1 + a2) / 2)) with hx
     have hxS : (a0 - 2 * c1 + a2) * x = (a0 - a2) / 2 := by rw [hx]; field_simp; ring
     have hx1 : -(1/2) ≤ x := by nlinarith
@@ -257,7 +269,6 @@ theorem quadratic_min_spec (a0 c1 a2 tol : ℚ) (h0 : c1 ≤ a0) (h2 : c1 ≤ a2
     refine ⟨⟨x, (a0 - 2 * c1 + a2) / 2 * (x * x) + (a2 - a0) / 2 * x + c1, 0⟩, ?_, rfl, hx1, hx2, ?_, ?_, ?_⟩
     · simp only [quadratic, sgn, Bool.false_eq_true, ↓reduceIte, hstop, hz, ← hx, hcl]
     · simp only
-      -- alpha x^2 + beta x = x * (S x / 2 + beta) = x * ((a0-a2)/4 + (a2-a0)/2) = - x (a0 - a2)/4 = -(S x) x / 2 ≤ 0
       have : (a0 - 2 * c1 + a2) / 2 * (x * x) + (a2 - a0) / 2 * x = -((a0 - 2 * c1 + a2) * x * x) / 2 := by
         have := hxS; nlinarith
       nlinarith [mul_self_nonneg x]
@@ -327,14 +338,15 @@ def fitOK (m : Method) (isMax : Bool) (a0 c1 a2 x y tol : ℚ) : Bool :=
 
 /-- **Method level.**  On three numeric costs whose centre is an extremum, the refinement method
     either returns (shift, fitted cost, no flag) with `|shift| ≤ 1/2`, the fitted cost not worse than the
-    centre and the fitted point required by the statement — or it is `quadratic` on three equal
-    costs, which raises. -/
-theorem method_refine (m : Method) (isMax : Bool) (a0 c1 a2 tol : ℚ)
+    centre and the fitted point required by the statement — or it is the unrepaired `quadratic` on three
+    equal costs, which raises. -/
+theorem method_refine (ff : Bool) (m : Method) (isMax : Bool) (a0 c1 a2 tol : ℚ)
     (hext : isExtremum isMax a0 c1 a2 = true) (htol : 0 ≤ tol)
     (hnt : m = .vfit → (tiny ≤ tol ∨ vslopeOf isMax a0 c1 a2 = 0 ∨ tiny ≤ vslopeOf isMax a0 c1 a2)) :
-    (m = .quadratic ∧ a0 = c1 ∧ a2 = c1 ∧ runMethod m isMax (.num a0) c1 (.num a2) = .err .zeroDivision) ∨
-    (¬(m = .quadratic ∧ a0 = c1 ∧ a2 = c1) ∧
-     ∃ r, runMethod m isMax (.num a0) c1 (.num a2) = .ok r ∧ r.flag = 0 ∧ -(1/2) ≤ r.shift ∧ r.shift ≤ 1/2
+    (m = .quadratic ∧ ff = false ∧ a0 = c1 ∧ a2 = c1
+      ∧ runMethod ff m isMax (.num a0) c1 (.num a2) = .err .zeroDivision) ∨
+    (¬(m = .quadratic ∧ ff = false ∧ a0 = c1 ∧ a2 = c1) ∧
+     ∃ r, runMethod ff m isMax (.num a0) c1 (.num a2) = .ok r ∧ r.flag = 0 ∧ -(1/2) ≤ r.shift ∧ r.shift ≤ 1/2
       ∧ (if isMax then c1 ≤ r.cost else r.cost ≤ c1) ∧ fitOK m isMax a0 c1 a2 r.shift r.cost tol = true) := by
   cases isMax
   · -- cost to be minimised
@@ -344,8 +356,9 @@ theorem method_refine (m : Method) (isMax : Bool) (a0 c1 a2 tol : ℚ)
       obtain ⟨r, hr, hf, h1, h2, h3, h4⟩ := vfit_min_spec a0 c1 a2 tol hext.1 hext.2 htol
         (by simpa [vslopeOf, sgn] using hnt rfl)
       exact ⟨by simp, r, hr, hf, h1, h2, by simpa using h3, by simpa [fitOK, vApex, sgn] using h4⟩
-    · rcases quadratic_min_spec a0 c1 a2 tol hext.1 hext.2 htol with ⟨e0, e2, he⟩ | ⟨hne, r, hr, hf, h1, h2, h3, h4, h5⟩
-      · left; exact ⟨rfl, e0, e2, he⟩
+    · rcases quadratic_min_spec ff a0 c1 a2 tol hext.1 hext.2 htol with
+        ⟨hff, e0, e2, he⟩ | ⟨hne, r, hr, hf, h1, h2, h3, h4, h5⟩
+      · left; exact ⟨rfl, hff, e0, e2, he⟩
       · right
         exact ⟨by simpa using hne, r, hr, hf, h1, h2, by simpa using h3, by simp [fitOK, h4, h5]⟩
   · -- similarity to be maximised: the same on the negated costs
@@ -358,14 +371,14 @@ theorem method_refine (m : Method) (isMax : Bool) (a0 c1 a2 tol : ℚ)
       · simp only [runMethod, vfit_max, hr, negOut]
       · simp only [↓reduceIte]; linarith
       · simpa [fitOK, vApex, sgn] using h4
-    · rcases quadratic_min_spec (-a0) (-c1) (-a2) tol (by linarith [hext.1]) (by linarith [hext.2]) htol with
-        ⟨e0, e2, he⟩ | ⟨hne, r, hr, hf, h1, h2, h3, h4, h5⟩
+    · rcases quadratic_min_spec ff (-a0) (-c1) (-a2) tol (by linarith [hext.1]) (by linarith [hext.2]) htol with
+        ⟨hff, e0, e2, he⟩ | ⟨hne, r, hr, hf, h1, h2, h3, h4, h5⟩
       · left
-        refine ⟨rfl, by linarith, by linarith, ?_⟩
+        refine ⟨rfl, hff, by linarith, by linarith, ?_⟩
         simp only [runMethod, quadratic_max, he, negOut]
       · right
         refine ⟨?_, ⟨r.shift, -r.cost, r.flag⟩, ?_, hf, h1, h2, ?_, ?_⟩
-        · rintro ⟨-, e0, e2⟩; apply hne; constructor <;> linarith
+        · rintro ⟨-, hff, e0, e2⟩; apply hne; exact ⟨hff, by linarith, by linarith⟩
         · simp only [runMethod, quadratic_max, hr, negOut]
         · simp only [↓reduceIte]; linarith
         · simp only [fitOK, Bool.and_eq_true]
@@ -379,24 +392,26 @@ theorem method_refine (m : Method) (isMax : Bool) (a0 c1 a2 tol : ℚ)
 
 /-- **Method level, the stop cases**: a NaN neighbour or a centre that is not an extremum gives
     shift 0, the centre cost, and bit 3. -/
-theorem method_stop (m : Method) (isMax : Bool) (c0 c2 : Val) (c1 : ℚ)
+theorem method_stop (ff : Bool) (m : Method) (isMax : Bool) (c0 c2 : Val) (c1 : ℚ)
     (h : c0 = .nan ∨ c2 = .nan ∨ ∃ a0 a2, c0 = .num a0 ∧ c2 = .num a2 ∧ isExtremum isMax a0 c1 a2 = false) :
-    runMethod m isMax c0 c1 c2 = .ok ⟨0, c1, stoppedBit⟩ := by
+    runMethod ff m isMax c0 c1 c2 = .ok ⟨0, c1, stoppedBit⟩ := by
   rcases h with rfl | rfl | ⟨a0, a2, rfl, rfl, hne⟩
   · cases m <;> simp [runMethod, vfit, quadratic]
   · cases m <;> cases c0 <;> simp [runMethod, vfit, quadratic]
   · have := (stop_cond_iff isMax a0 c1 a2).mpr hne
     cases m <;> simp only [runMethod, vfit, quadratic, this, ↓reduceIte]
 
-/-- `quadratic` raises exactly on three equal costs (given numeric neighbours and an extremum) -/
-theorem quadratic_raises_iff (isMax : Bool) (a0 c1 a2 : ℚ) (hext : isExtremum isMax a0 c1 a2 = true) :
-    quadratic isMax (.num a0) c1 (.num a2) = .err .zeroDivision ↔ (a0 = c1 ∧ a2 = c1) := by
-  rcases method_refine .quadratic isMax a0 c1 a2 0 hext (le_refl _) (by simp) with ⟨-, e0, e2, he⟩ | ⟨hne, r, hr, -⟩
-  · simp only [runMethod] at he; exact ⟨fun _ => ⟨e0, e2⟩, fun _ => he⟩
+/-- the unrepaired `quadratic` raises exactly on three equal costs (given numeric neighbours and an
+    extremum); the repaired one never raises -/
+theorem quadratic_raises_iff (ff : Bool) (isMax : Bool) (a0 c1 a2 : ℚ) (hext : isExtremum isMax a0 c1 a2 = true) :
+    quadratic ff isMax (.num a0) c1 (.num a2) = .err .zeroDivision ↔ (ff = false ∧ a0 = c1 ∧ a2 = c1) := by
+  rcases method_refine ff .quadratic isMax a0 c1 a2 0 hext (le_refl _) (by simp) with
+    ⟨-, hff, e0, e2, he⟩ | ⟨hne, r, hr, -⟩
+  · simp only [runMethod] at he; exact ⟨fun _ => ⟨hff, e0, e2⟩, fun _ => he⟩
   · simp only [runMethod] at hr
     constructor
     · intro h; rw [hr] at h; cases h
-    · intro h; exact absurd ⟨rfl, h.1, h.2⟩ hne
+    · intro h; exact absurd ⟨rfl, h.1, h.2.1, h.2.2⟩ hne
 
 /-! ## Pixel level -/
 
@@ -426,6 +441,30 @@ theorem bit3_add (f : Nat) (h : bitAt f 3 = 0) :
 
 theorem sameExceptBit3_refl (f : Nat) : sameExceptBit3 f f = true := by
   simp [sameExceptBit3]
+
+theorem addFlag_zero (b : Bool) (f : Nat) : addFlag b f 0 = f := by
+  cases b <;> simp [addFlag]
+
+/-- raising bit 3: by `+=` when it is clear, by `|=` always -/
+theorem addFlag_stopped (b : Bool) (f : Nat) (h : b = true ∨ bitAt f 3 = 0) :
+    bitAt (addFlag b f stoppedBit) 3 = 1 ∧ sameExceptBit3 (addFlag b f stoppedBit) f = true := by
+  cases b
+  · rcases h with h | h
+    · cases h
+    · exact bit3_add f h
+  · have e : stoppedBit = 8 := rfl
+    simp only [addFlag, ↓reduceIte, e]
+    constructor
+    · have h8 : Nat.testBit 8 3 = true := by decide
+      have ht : (f ||| 8).testBit 3 = true := by simp [Nat.testBit_or, h8]
+      rw [Nat.testBit_eq_decide_div_mod_eq] at ht
+      simpa [bitAt] using ht
+    · have h1 := @Nat.or_mod_two_pow f 8 3
+      have h2 := @Nat.or_div_two_pow f 8 4
+      simp only [sameExceptBit3, Bool.and_eq_true, beq_iff_eq]
+      constructor
+      · simpa using h1
+      · simpa using h2
 
 /-- Well-formedness of a pixel (decidable): the cost row has one cell per sample of the interval,
     a valid pixel carries a disparity of its own interval, which lies inside the global one, and the
@@ -564,12 +603,14 @@ theorem notTiny_slope (costs : List Val) (h : notTinyCosts costs = true) (isMax 
           | (left; linarith [hext.1, hext.2])
           | (right; linarith [hext.1, hext.2])
 
-/-- **Pixel level, everything except `inside_interval`.** -/
+/-- **Pixel level, everything except `inside_interval`.**  The two provisos are needed by the code as it
+    is and vanish with the repairs: the interval-end test must agree with the sample index (`fixEnds`
+    makes it so), bit 3 must be clear (`fixOr` makes it irrelevant). -/
 theorem refinePixel_core (P : Params) (x : PixIn) (tol : ℚ) (hwf : wfPix P x = true)
-    (hends : endsAgree P x) (hbit : bitAt x.flag 3 = 0) (htol : 0 ≤ tol)
-    (hnt : P.method = .vfit → tiny ≤ tol ∨ notTinyCosts x.costs = true) :
+    (hends : P.variant.fixEnds = true ∨ endsAgree P x) (hbit : P.variant.fixOr = true ∨ bitAt x.flag 3 = 0)
+    (htol : 0 ≤ tol) (hnt : P.method = .vfit → tiny ≤ tol ∨ notTinyCosts x.costs = true) :
     (∃ o, refinePixel P x = .ok o ∧ coreOK P x o tol = true) ∨
-    (P.method = .quadratic ∧ refinePixel P x = .err .zeroDivision
+    (P.method = .quadratic ∧ P.variant.fixFlat = false ∧ refinePixel P x = .err .zeroDivision
       ∧ ∃ d c, classify P x = .refine d c c c) := by
   have W := wfPix_facts P x hwf
   by_cases hinv : Flags.isInvalid x.flag = true
@@ -582,7 +623,23 @@ theorem refinePixel_core (P : Params) (x : PixIn) (tol : ℚ) (hwf : wfPix P x =
     have hd1 : P.dmin ≤ dv := le_trans W.pmin_ge hp1
     have hd2 : dv ≤ P.dmax := le_trans hp2 W.pmax_le
     obtain ⟨hpy, hs0, hs1, hs2⟩ := sample_facts P x W dv hd1 hd2
-    have hE := hends hinv' dv hd
+    -- the test that lets the method run says: the sample is not an end of the interval
+    have hna : notAtEnd P x.costs.length dv (sampleOf P dv) = true ↔
+        ¬(sampleOf P dv = 0 ∨ sampleOf P dv = (x.costs.length : Int) - 1) := by
+      unfold notAtEnd
+      cases hfe : P.variant.fixEnds
+      · rcases hends with h | h
+        · rw [hfe] at h; cases h
+        · have hE := h hinv' dv hd
+          simp only [Bool.false_eq_true, ↓reduceIte, Bool.and_eq_true, bne_iff_ne, ne_eq]
+          rw [← hE]
+          constructor
+          · rintro ⟨h1, h2⟩ (h3 | h3) <;> contradiction
+          · intro h3; exact ⟨fun h1 => h3 (Or.inl h1), fun h2 => h3 (Or.inr h2)⟩
+      · simp only [↓reduceIte, Bool.and_eq_true, bne_iff_ne, ne_eq]
+        constructor
+        · rintro ⟨h1, h2⟩ (h3 | h3) <;> contradiction
+        · intro h3; exact ⟨fun h1 => h3 (Or.inl h1), fun h2 => h3 (Or.inr h2)⟩
     generalize hsdef : sampleOf P dv = s at *
     have hlt : s < (x.costs.length : Int) := by omega
     have hget : pyGet x.costs s = some (costAt x.costs s) := pyGet_inrange _ _ hs0 hlt
@@ -594,23 +651,18 @@ theorem refinePixel_core (P : Params) (x : PixIn) (tol : ℚ) (hwf : wfPix P x =
       · simp [refinePixel, hinv', hd, hpy, hget, hc1]
       · simp [coreOK, exactHalf, clauses, classify, hinv', hd, hsdef, hcls0, hc1]
     | num c1 =>
+      obtain ⟨hb1', hb2'⟩ := addFlag_stopped P.variant.fixOr x.flag hbit
       by_cases hend : s = 0 ∨ s = (x.costs.length : Int) - 1
       · -- the sample is an end of the interval: stopped
         left
-        have hdd : ¬(dv ≠ P.dmin ∧ dv ≠ P.dmax) := by
-          have := hE.mpr hend
-          rcases this with h | h <;> simp [h]
-        obtain ⟨hb1, hb2⟩ := bit3_add x.flag hbit
-        refine ⟨⟨.num c1, x.d, x.flag + stoppedBit⟩, ?_, ?_⟩
+        have hdd : notAtEnd P x.costs.length dv s = false := by
+          by_contra hcon
+          exact (hna.mp (by simpa using hcon)) hend
+        refine ⟨⟨.num c1, x.d, addFlag P.variant.fixOr x.flag stoppedBit⟩, ?_, ?_⟩
         · simp [refinePixel, hinv', hd, hpy, hget, hc1, hdd]
-        · have hb1' : bitAt (x.flag + stoppedBit) 3 = 1 := hb1
-          have hb2' : sameExceptBit3 (x.flag + stoppedBit) x.flag = true := hb2
-          simp [coreOK, exactHalf, clauses, classify, hinv', hd, hsdef, hcls0, hc1, hend, hb1', hb2']
+        · simp [coreOK, exactHalf, clauses, classify, hinv', hd, hsdef, hcls0, hc1, hend, hb1', hb2']
       · -- an inner sample: the method is applied to the three costs
-        have hne : dv ≠ P.dmin ∧ dv ≠ P.dmax := by
-          constructor
-          · intro h; exact hend (hE.mp (Or.inl h))
-          · intro h; exact hend (hE.mp (Or.inr h))
+        have hne : notAtEnd P x.costs.length dv s = true := hna.mpr hend
         have hsl : 1 ≤ s ∧ s ≤ (x.costs.length : Int) - 2 := by omega
         have hg0 : pyGet x.costs (s - 1) = some (costAt x.costs (s - 1)) := pyGet_inrange _ _ (by omega) (by omega)
         have hg2 : pyGet x.costs (s + 1) = some (costAt x.costs (s + 1)) := pyGet_inrange _ _ (by omega) (by omega)
@@ -618,21 +670,18 @@ theorem refinePixel_core (P : Params) (x : PixIn) (tol : ℚ) (hwf : wfPix P x =
           have := W.subpix_pos
           exact_mod_cast (by omega : 0 < P.subpix)
         -- what the model does on an inner sample, for any method answer
-        have hmodel : ∀ r, runMethod P.method P.isMax (costAt x.costs (s - 1)) c1 (costAt x.costs (s + 1)) = .ok r →
-            refinePixel P x = .ok ⟨.num r.cost, .num (dv + r.shift / (P.subpix : ℚ)), x.flag + r.flag⟩ := by
+        have hmodel : ∀ r, runMethod P.variant.fixFlat P.method P.isMax (costAt x.costs (s - 1)) c1 (costAt x.costs (s + 1)) = .ok r →
+            refinePixel P x = .ok ⟨.num r.cost, .num (dv + r.shift / (P.subpix : ℚ)), addFlag P.variant.fixOr x.flag r.flag⟩ := by
           intro r hr
           simp [refinePixel, hinv', hd, hpy, hget, hc1, hne, hg0, hg2, hr]
-        have hmodelE : ∀ e, runMethod P.method P.isMax (costAt x.costs (s - 1)) c1 (costAt x.costs (s + 1)) = .err e →
+        have hmodelE : ∀ e, runMethod P.variant.fixFlat P.method P.isMax (costAt x.costs (s - 1)) c1 (costAt x.costs (s + 1)) = .err e →
             refinePixel P x = .err e := by
           intro e hr
           simp [refinePixel, hinv', hd, hpy, hget, hc1, hne, hg0, hg2, hr]
-        obtain ⟨hb1, hb2⟩ := bit3_add x.flag hbit
-        have hb1' : bitAt (x.flag + stoppedBit) 3 = 1 := hb1
-        have hb2' : sameExceptBit3 (x.flag + stoppedBit) x.flag = true := hb2
         -- the stop cases share their conclusion
         have hstopped : ∀ cls : Class, classify P x = cls →
             (cls = .neighbourNan ∨ cls = .notExtremum) →
-            runMethod P.method P.isMax (costAt x.costs (s - 1)) c1 (costAt x.costs (s + 1)) = .ok ⟨0, c1, stoppedBit⟩ →
+            runMethod P.variant.fixFlat P.method P.isMax (costAt x.costs (s - 1)) c1 (costAt x.costs (s + 1)) = .ok ⟨0, c1, stoppedBit⟩ →
             ∃ o, refinePixel P x = .ok o ∧ coreOK P x o tol = true := by
           intro cls hcls hk hr
           refine ⟨_, hmodel _ hr, ?_⟩
@@ -644,7 +693,7 @@ theorem refinePixel_core (P : Params) (x : PixIn) (tol : ℚ) (hwf : wfPix P x =
           apply hstopped .neighbourNan
           · simp [classify, hinv', hd, hsdef, hcls0, hc1, hend, hc0]
           · exact Or.inl rfl
-          · exact method_stop _ _ _ _ _ (Or.inl hc0)
+          · exact method_stop _ _ _ _ _ _ (Or.inl hc0)
         | num a0 =>
           cases hc2 : costAt x.costs (s + 1) with
           | nan =>
@@ -652,7 +701,7 @@ theorem refinePixel_core (P : Params) (x : PixIn) (tol : ℚ) (hwf : wfPix P x =
             apply hstopped .neighbourNan
             · simp [classify, hinv', hd, hsdef, hcls0, hc1, hend, hc0, hc2]
             · exact Or.inl rfl
-            · exact method_stop _ _ _ _ _ (Or.inr (Or.inl hc2))
+            · exact method_stop _ _ _ _ _ _ (Or.inr (Or.inl hc2))
           | num a2 =>
             by_cases hext : isExtremum P.isMax a0 c1 a2 = true
             · -- the centre is an extremum of three numbers: refined (or `quadratic` raises on a flat triple)
@@ -665,13 +714,15 @@ theorem refinePixel_core (P : Params) (x : PixIn) (tol : ℚ) (hwf : wfPix P x =
                 · exact Or.inl h
                 · exact Or.inr (notTiny_slope x.costs h P.isMax a0 c1 a2 (costAt_mem _ _ _ hc0) (costAt_mem _ _ _ hc1)
                     (costAt_mem _ _ _ hc2) hext)
-              rcases method_refine P.method P.isMax a0 c1 a2 tol hext htol hnt' with
-                ⟨hq, e0, e2, he⟩ | ⟨-, r, hr, hf, hr1, hr2, hr3, hr4⟩
+              rcases method_refine P.variant.fixFlat P.method P.isMax a0 c1 a2 tol hext htol hnt' with
+                ⟨hq, hff, e0, e2, he⟩ | ⟨-, r, hr, hf, hr1, hr2, hr3, hr4⟩
               · right
-                refine ⟨hq, hmodelE _ (by rw [hc0, hc2]; exact he), dv, c1, ?_⟩
+                refine ⟨hq, hff, hmodelE _ (by rw [hc0, hc2]; exact he), dv, c1, ?_⟩
                 rw [hcls, e0, e2]
               · left
                 refine ⟨_, hmodel r (by rw [hc0, hc2]; exact hr), ?_⟩
+                have hfl : addFlag P.variant.fixOr x.flag r.flag = x.flag := by rw [hf]; exact addFlag_zero _ _
+                rw [hfl]
                 have hsx : (dv + r.shift / (P.subpix : ℚ) - dv) * (P.subpix : ℚ) = r.shift := by
                   field_simp; ring
                 have hE1 : dv + r.shift / (P.subpix : ℚ) - dv ≤ 1 / (2 * (P.subpix : ℚ)) := by
@@ -684,12 +735,12 @@ theorem refinePixel_core (P : Params) (x : PixIn) (tol : ℚ) (hwf : wfPix P x =
                   exact div_le_div_of_nonneg_right (by linarith) (le_of_lt hsub)
                 have hhalf1 : dv + r.shift / (P.subpix : ℚ) - dv ≤ 1 / (2 * (P.subpix : ℚ)) + tol := by linarith
                 have hhalf2 : dv - (dv + r.shift / (P.subpix : ℚ)) ≤ 1 / (2 * (P.subpix : ℚ)) + tol := by linarith
-                have hexact : exactHalf P x ⟨.num r.cost, .num (dv + r.shift / (P.subpix : ℚ)), x.flag + r.flag⟩ = true := by
+                have hexact : exactHalf P x ⟨.num r.cost, .num (dv + r.shift / (P.subpix : ℚ)), x.flag⟩ = true := by
                   simp only [exactHalf, hcls, Bool.and_eq_true, decide_eq_true_eq]; exact ⟨hE1, hE2⟩
                 have hworse : (if P.isMax = true then decide (c1 ≤ r.cost + tol) else decide (r.cost ≤ c1 + tol)) = true := by
                   cases hM : P.isMax <;> simp [hM] at hr3 ⊢ <;> linarith
-                have hflag : (x.flag + r.flag == x.flag) = true := by simp [hf]
-                have hsame : sameExceptBit3 (x.flag + r.flag) x.flag = true := by rw [hf]; exact sameExceptBit3_refl _
+                have hflag : (x.flag == x.flag) = true := by simp
+                have hsame : sameExceptBit3 x.flag x.flag = true := sameExceptBit3_refl _
                 have hhalf : decide (dv + r.shift / (P.subpix : ℚ) - dv ≤ 1 / (2 * (P.subpix : ℚ)) + tol) = true
                     ∧ decide (dv - (dv + r.shift / (P.subpix : ℚ)) ≤ 1 / (2 * (P.subpix : ℚ)) + tol) = true := by
                   simp only [decide_eq_true_eq]; exact ⟨hhalf1, hhalf2⟩
@@ -703,7 +754,7 @@ theorem refinePixel_core (P : Params) (x : PixIn) (tol : ℚ) (hwf : wfPix P x =
               apply hstopped .notExtremum
               · simp [classify, hinv', hd, hsdef, hcls0, hc1, hend, hc0, hc2, hext']
               · exact Or.inr rfl
-              · exact method_stop _ _ _ _ _ (Or.inr (Or.inr ⟨a0, a2, hc0, hc2, hext'⟩))
+              · exact method_stop _ _ _ _ _ _ (Or.inr (Or.inr ⟨a0, a2, hc0, hc2, hext'⟩))
 
 /-! ### When the code's interval-end test agrees with the statement's -/
 
@@ -906,29 +957,32 @@ theorem spec_of_core_inside (P : Params) (x : PixIn) (o : PixOut) (tol : ℚ)
     · exact h'
 
 /-- what is assumed of a pixel for the full statement: well-formed, its disparity is a sample (as
-    winner-takes-all leaves it), bit 3 not yet raised -/
-def pixHyp (P : Params) (x : PixIn) : Bool := wfPix P x && onGridPix P x && bitAt x.flag 3 == 0
+    winner-takes-all leaves it), bit 3 not yet raised (not needed once flags are or-ed) -/
+def pixHyp (P : Params) (x : PixIn) : Bool :=
+  wfPix P x && onGridPix P x && (P.variant.fixOr || bitAt x.flag 3 == 0)
 
 /--
   **C06, one pixel.**  For every well-formed pixel whose disparity is a sample of the interval and
   whose bit 3 is clear, `refinePixel` either returns an output satisfying *every* clause of the
   specification (`invalid_untouched`, `stopped_iff` with its three causes, `only_bit3`,
   `shift_le_half`, `is_vfit_optimum` / `is_parabola_optimum`, `coeff_is_fitted_cost`,
-  `coeff_not_worse`, `inside_interval`), or the method is `quadratic`, the pixel is to be refined on
-  three equal costs, and the step raises (finding C06-F2: the clause `total` is false there).
+  `coeff_not_worse`, `inside_interval`), or the method is the unrepaired `quadratic`, the pixel is to be
+  refined on three equal costs, and the step raises (finding C06-F2: the clause `total` is false there).
   `tol` is any tolerance ≥ 0 (0 gives the exact statement, then the costs must not differ by less
   than the 1e-15 guard of vfit.py, or `tol ≥ 1e-15`).
 
-  Full-strength statement (false of the code, see the counterexamples below): the same without
-  `onGridPix`, without `bitAt x.flag 3 = 0` and with the right disjunct removed.
+  Full-strength statement (false of the code as it is, see the counterexamples below; true of the
+  repaired code, `refinePixel_spec_repaired`): the same without `bitAt x.flag 3 = 0` and with the right
+  disjunct removed.
 -/
 theorem refinePixel_spec (P : Params) (x : PixIn) (tol : ℚ) (hp : pixHyp P x = true) (htol : 0 ≤ tol)
     (hnt : P.method = .vfit → tiny ≤ tol ∨ notTinyCosts x.costs = true) :
     (∃ o, refinePixel P x = .ok o ∧ specOK P x o tol = true) ∨
-    (P.method = .quadratic ∧ refinePixel P x = .err .zeroDivision ∧ ∃ d c, classify P x = .refine d c c c) := by
-  simp only [pixHyp, Bool.and_eq_true, beq_iff_eq] at hp
+    (P.method = .quadratic ∧ P.variant.fixFlat = false ∧ refinePixel P x = .err .zeroDivision
+      ∧ ∃ d c, classify P x = .refine d c c c) := by
+  simp only [pixHyp, Bool.and_eq_true, Bool.or_eq_true, beq_iff_eq] at hp
   obtain ⟨⟨hwf, hg⟩, hbit⟩ := hp
-  rcases refinePixel_core P x tol hwf (ends_agree_of_onGrid P x hwf hg) hbit htol hnt with ⟨o, ho, hc⟩ | h
+  rcases refinePixel_core P x tol hwf (Or.inr (ends_agree_of_onGrid P x hwf hg)) hbit htol hnt with ⟨o, ho, hc⟩ | h
   · left
     refine ⟨o, ho, spec_of_core_inside P x o tol hc (inside_of_onGrid P x o tol hwf hg ?_)⟩
     simp only [coreOK, Bool.and_eq_true] at hc
@@ -943,22 +997,48 @@ theorem vfit_pixel_spec (P : Params) (x : PixIn) (tol : ℚ) (hm : P.method = .v
   · exact h
   · rw [hm] at hq; cases hq
 
+/-- **C06 for the repaired step** (the three proposed fixes applied): for both methods, whatever the
+    flag word, every well-formed pixel carrying a sample disparity satisfies every clause and the step does
+    not raise. -/
+theorem refinePixel_spec_repaired (P : Params) (x : PixIn) (tol : ℚ)
+    (hV : P.variant = { fixFlat := true, fixOr := true, fixEnds := true })
+    (hwf : wfPix P x = true) (hg : onGridPix P x = true) (htol : 0 ≤ tol)
+    (hnt : P.method = .vfit → tiny ≤ tol ∨ notTinyCosts x.costs = true) :
+    ∃ o, refinePixel P x = .ok o ∧ specOK P x o tol = true := by
+  have hp : pixHyp P x = true := by simp [pixHyp, hwf, hg, hV]
+  rcases refinePixel_spec P x tol hp htol hnt with h | ⟨-, hff, -⟩
+  · exact h
+  · rw [hV] at hff; cases hff
+
 /-- **Off the grid** (a disparity as a filter leaves it), as long as it does not designate the first
     sample: every clause except `inside_interval` (findings C06-F3 and C06-F5 are exactly the two
     exceptions). -/
 theorem refinePixel_spec_offGrid (P : Params) (x : PixIn) (tol : ℚ) (hwf : wfPix P x = true)
     (hoff : ∀ dv, x.d = .num dv → onGrid P dv = false ∧ sampleOf P dv ≠ 0)
-    (hbit : bitAt x.flag 3 = 0) (htol : 0 ≤ tol)
+    (hbit : P.variant.fixOr = true ∨ bitAt x.flag 3 = 0) (htol : 0 ≤ tol)
     (hnt : P.method = .vfit → tiny ≤ tol ∨ notTinyCosts x.costs = true) :
     (∃ o, refinePixel P x = .ok o ∧ coreOK P x o tol = true) ∨
-    (P.method = .quadratic ∧ refinePixel P x = .err .zeroDivision ∧ ∃ d c, classify P x = .refine d c c c) :=
-  refinePixel_core P x tol hwf (ends_agree_offGrid P x hwf hoff) hbit htol hnt
+    (P.method = .quadratic ∧ P.variant.fixFlat = false ∧ refinePixel P x = .err .zeroDivision
+      ∧ ∃ d c, classify P x = .refine d c c c) :=
+  refinePixel_core P x tol hwf (Or.inr (ends_agree_offGrid P x hwf hoff)) hbit htol hnt
+
+/-- **Off the grid, repaired step**: with the interval-end test made on the sample index the proviso
+    about the first sample disappears: every well-formed pixel, every clause except `inside_interval`
+    (finding C06-F5 is not repaired by the proposed fixes). -/
+theorem refinePixel_core_repaired (P : Params) (x : PixIn) (tol : ℚ)
+    (hV : P.variant = { fixFlat := true, fixOr := true, fixEnds := true })
+    (hwf : wfPix P x = true) (htol : 0 ≤ tol)
+    (hnt : P.method = .vfit → tiny ≤ tol ∨ notTinyCosts x.costs = true) :
+    ∃ o, refinePixel P x = .ok o ∧ coreOK P x o tol = true := by
+  rcases refinePixel_core P x tol hwf (Or.inl (by rw [hV])) (Or.inl (by rw [hV])) htol hnt with h | ⟨-, hff, -⟩
+  · exact h
+  · rw [hV] at hff; cases hff
 
 /-! ### Totality -/
 
-theorem runMethod_total (m : Method) (isMax : Bool) (c0 c2 : Val) (c1 : ℚ) :
-    (∃ r, runMethod m isMax c0 c1 c2 = .ok r) ∨
-    (m = .quadratic ∧ runMethod m isMax c0 c1 c2 = .err .zeroDivision) := by
+theorem runMethod_total (ff : Bool) (m : Method) (isMax : Bool) (c0 c2 : Val) (c1 : ℚ) :
+    (∃ r, runMethod ff m isMax c0 c1 c2 = .ok r) ∨
+    (m = .quadratic ∧ ff = false ∧ runMethod ff m isMax c0 c1 c2 = .err .zeroDivision) := by
   cases m
   · left
     cases c0 <;> cases c2 <;> simp only [runMethod, vfit] <;> (try split_ifs) <;> exact ⟨_, rfl⟩
@@ -966,16 +1046,21 @@ theorem runMethod_total (m : Method) (isMax : Bool) (c0 c2 : Val) (c1 : ℚ) :
     · left; exact ⟨_, rfl⟩
     · left; exact ⟨_, rfl⟩
     · left; exact ⟨_, rfl⟩
-    · split_ifs
+    · cases ff <;> simp only [Bool.false_eq_true, ↓reduceIte] <;> split_ifs
       · left; exact ⟨_, rfl⟩
       · right; simp
       · left; exact ⟨_, rfl⟩
+      · left; exact ⟨_, rfl⟩
+      · left; exact ⟨_, rfl⟩
+      · left; exact ⟨_, rfl⟩
 
 /-- **`total`, one pixel**: on every well-formed pixel — any cost curve (flat, tied, NaN-holed), any
-    flag word, a disparity on or off the grid — the loop body returns, except `quadratic` dividing by
-    zero.  In particular no index leaves the cost row (the wrap-around read of index -1 is legal). -/
+    flag word, a disparity on or off the grid, any variant — the loop body returns, except the unrepaired
+    `quadratic` dividing by zero.  In particular no index leaves the cost row (the wrap-around read of
+    index -1 is legal). -/
 theorem refinePixel_total (P : Params) (x : PixIn) (hwf : wfPix P x = true) :
-    (∃ o, refinePixel P x = .ok o) ∨ (P.method = .quadratic ∧ refinePixel P x = .err .zeroDivision) := by
+    (∃ o, refinePixel P x = .ok o) ∨
+    (P.method = .quadratic ∧ P.variant.fixFlat = false ∧ refinePixel P x = .err .zeroDivision) := by
   have W := wfPix_facts P x hwf
   by_cases hinv : Flags.isInvalid x.flag = true
   · left; simp [refinePixel, hinv]
@@ -989,17 +1074,25 @@ theorem refinePixel_total (P : Params) (x : PixIn) (hwf : wfPix P x = true) :
     cases hc1 : costAt x.costs s with
     | nan => left; simp [refinePixel, hinv', hd, hpy, hget, hc1]
     | num c1 =>
-      by_cases hne : dv ≠ P.dmin ∧ dv ≠ P.dmax
-      · have h2 := hs2 hne.2
+      by_cases hne : notAtEnd P x.costs.length dv s = true
+      · -- the right neighbour exists in both variants of the test
+        have h2 : s ≤ (x.costs.length : Int) - 2 := by
+          unfold notAtEnd at hne
+          cases hfe : P.variant.fixEnds
+          · simp only [hfe, Bool.false_eq_true, ↓reduceIte, Bool.and_eq_true, bne_iff_ne, ne_eq] at hne
+            exact hs2 hne.2
+          · simp only [hfe, ↓reduceIte, Bool.and_eq_true, bne_iff_ne, ne_eq] at hne
+            omega
         have hg2 : pyGet x.costs (s + 1) = some (costAt x.costs (s + 1)) := pyGet_inrange _ _ (by omega) (by omega)
         have hg0 : ∃ v, pyGet x.costs (s - 1) = some v := by
           by_cases h0 : s = 0
           · subst h0; exact pyGet_neg_one _ (by omega)
           · exact ⟨_, pyGet_inrange _ _ (by omega) (by omega)⟩
         obtain ⟨v0, hv0⟩ := hg0
-        rcases runMethod_total P.method P.isMax v0 (costAt x.costs (s + 1)) c1 with ⟨r, hr⟩ | ⟨hq, hr⟩
+        rcases runMethod_total P.variant.fixFlat P.method P.isMax v0 (costAt x.costs (s + 1)) c1 with
+          ⟨r, hr⟩ | ⟨hq, hff, hr⟩
         · left; simp [refinePixel, hinv', hd, hpy, hget, hc1, hne, hv0, hg2, hr]
-        · right; exact ⟨hq, by simp [refinePixel, hinv', hd, hpy, hget, hc1, hne, hv0, hg2, hr]⟩
+        · right; exact ⟨hq, hff, by simp [refinePixel, hinv', hd, hpy, hget, hc1, hne, hv0, hg2, hr]⟩
       · left; simp [refinePixel, hinv', hd, hpy, hget, hc1, hne]
 
 /-! ## The whole map -/
@@ -1055,12 +1148,12 @@ def flatRefine (P : Params) (x : PixIn) : Bool :=
 
 /--
   **C06, the whole map.**  `loop_refinement` on a map of any size whose pixels are well-formed, carry
-  sample disparities and have bit 3 clear — and, for `quadratic`, with no pixel to be refined on
-  three equal costs — returns, and its output satisfies the specification at every pixel.
+  sample disparities and have bit 3 clear — and, for the unrepaired `quadratic`, with no pixel to be
+  refined on three equal costs — returns, and its output satisfies the specification at every pixel.
 -/
 theorem loop_spec (P : Params) (g : List (List PixIn)) (tol : ℚ)
     (hp : ∀ row ∈ g, ∀ x ∈ row, pixHyp P x = true)
-    (hflat : P.method = .quadratic → ∀ row ∈ g, ∀ x ∈ row, flatRefine P x = false)
+    (hflat : P.method = .quadratic → P.variant.fixFlat = false → ∀ row ∈ g, ∀ x ∈ row, flatRefine P x = false)
     (htol : 0 ≤ tol)
     (hnt : P.method = .vfit → tiny ≤ tol ∨ ∀ row ∈ g, ∀ x ∈ row, notTinyCosts x.costs = true) :
     ∃ o, loopRefinement P g = .ok o ∧ specGrid P g o tol = true := by
@@ -1071,9 +1164,9 @@ theorem loop_spec (P : Params) (g : List (List PixIn)) (tol : ℚ)
       rcases hnt hm with h | h
       · exact Or.inl h
       · exact Or.inr (h row hrow x hx)
-    rcases refinePixel_spec P x tol (hp row hrow x hx) htol hnt' with h | ⟨hq, -, d, c, hcls⟩
+    rcases refinePixel_spec P x tol (hp row hrow x hx) htol hnt' with h | ⟨hq, hff, -, d, c, hcls⟩
     · exact h
-    · have := hflat hq row hrow x hx
+    · have := hflat hq hff row hrow x hx
       simp [flatRefine, hcls] at this
   have hrows : ∀ row ∈ g, ∃ r, mapRes (refinePixel P) row = .ok r := by
     intro row hrow
@@ -1125,17 +1218,33 @@ theorem loop_spec (P : Params) (g : List (List PixIn)) (tol : ℚ)
           exact keyp row r (fun x hx => hx) hr
   exact key g o (fun row hrow => hrow) ho
 
-/-- **`total` for the whole map with `vfit`**: any size, any cost curves, any flags, disparities on or
-    off the grid (well-formed pixels only) — the step returns. -/
-theorem loop_total_vfit (P : Params) (g : List (List PixIn)) (hm : P.method = .vfit)
+/-- **C06, the whole map, repaired step**: both methods, any flag words, no exception — every map of
+    well-formed pixels carrying sample disparities satisfies the specification at every pixel. -/
+theorem loop_spec_repaired (P : Params) (g : List (List PixIn)) (tol : ℚ)
+    (hV : P.variant = { fixFlat := true, fixOr := true, fixEnds := true })
+    (hp : ∀ row ∈ g, ∀ x ∈ row, wfPix P x = true ∧ onGridPix P x = true)
+    (htol : 0 ≤ tol)
+    (hnt : P.method = .vfit → tiny ≤ tol ∨ ∀ row ∈ g, ∀ x ∈ row, notTinyCosts x.costs = true) :
+    ∃ o, loopRefinement P g = .ok o ∧ specGrid P g o tol = true := by
+  apply loop_spec P g tol _ _ htol hnt
+  · intro row hrow x hx
+    obtain ⟨h1, h2⟩ := hp row hrow x hx
+    simp [pixHyp, h1, h2, hV]
+  · intro _ hff; rw [hV] at hff; cases hff
+
+/-- **`total` for the whole map**: with `vfit`, or with the repaired `quadratic`: any size, any cost
+    curves, any flags, disparities on or off the grid (well-formed pixels only) — the step returns. -/
+theorem loop_total (P : Params) (g : List (List PixIn)) (hm : P.method = .vfit ∨ P.variant.fixFlat = true)
     (hwf : ∀ row ∈ g, ∀ x ∈ row, wfPix P x = true) : ∃ o, loopRefinement P g = .ok o := by
   apply mapRes_ok
   intro row hrow
   apply mapRes_ok
   intro x hx
-  rcases refinePixel_total P x (hwf row hrow x hx) with h | ⟨hq, -⟩
+  rcases refinePixel_total P x (hwf row hrow x hx) with h | ⟨hq, hff, -⟩
   · exact h
-  · rw [hm] at hq; cases hq
+  · rcases hm with hm | hm
+    · rw [hm] at hq; cases hq
+    · rw [hm] at hff; cases hff
 
 /-! ## Tie to the source, non-vacuity, counterexamples -/
 
